@@ -654,7 +654,10 @@ if parallel.use_mpi():
         for chunk in chunk_iter:
             worker_chunk = scatter_data_chunk(comm, reader_rank, chunk)
             patches = split_into_patches(worker_chunk, patch_centers)
-            parallel.COMM.send(patches, dest=worker_config.writer_rank, tag=1)
+            # synchronous send: all data must be received before the barrier is
+            # passed, otherwise the end-of-queue sentinel of the reader rank may
+            # overtake the last message of another rank
+            parallel.COMM.ssend(patches, dest=worker_config.writer_rank, tag=1)
 
         comm.Barrier()
 
